@@ -1,16 +1,230 @@
 package main
 
 import (
+	"encoding/binary"
+	"encoding/hex"
 	"errors"
+	"fmt"
+	"sync"
 
+	"github.com/jcmturner/gofork/encoding/asn1"
+	"github.com/jcmturner/gokrb5/v8/crypto"
+	"github.com/jcmturner/gokrb5/v8/iana/adtype"
+	"github.com/jcmturner/gokrb5/v8/test/testdata"
 	"github.com/jcmturner/gokrb5/v8/types"
 )
 
+// Test-input production for the properties that put a PAC into a minted ticket (C01, C03): one of the repository's sample
+// PACs, laid out again and re-signed for the service key at hand.  This is not an oracle and not the C19 writer (that one is
+// spec/c19/PACFormat.tla, evaluated by TLC); it only produces requests.
+
 // pacFactory produces AD-IF-RELEVANT/AD-WIN2K-PAC authorization data signed for a given service key (see C19).
-type pacFactory struct{}
+// It is stateless after the first use and safe for concurrent use.
+type pacFactory struct {
+	once sync.Once
+	err  error
+	bufs []pacBuf // the data buffers of the sample (everything but the two signatures), in the sample's order
+}
+
+type pacBuf struct {
+	typ  uint32
+	data []byte
+}
+
+const (
+	pacBufServerSig  = 6
+	pacBufKDCSig     = 7
+	pacBufClientInfo = 10
+	pacSigUsage      = 17 // KERB_NON_KERB_CKSUM_SALT
+	pacHMACMD5       = -138
+)
+
+// the (arbitrary, fixed) key of the pretended KDC; services cannot check the KDC signature
+var pacKDCKey = []byte{0x6b, 0x72, 0x62, 0x74, 0x67, 0x74, 0x2d, 0x6b, 0x65, 0x79, 0x2d, 0x63, 0x31, 0x39, 0x21, 0x21}
 
 func newPacFactory() *pacFactory { return &pacFactory{} }
 
+// splitPAC reads the info-buffer table of a PACTYPE image (test-input side reader, strict about bounds).
+func splitPAC(b []byte) ([]pacBuf, error) {
+	if len(b) < 8 {
+		return nil, errors.New("PAC image shorter than its header")
+	}
+	n := int(binary.LittleEndian.Uint32(b[0:4]))
+	if n < 0 || 8+16*n > len(b) {
+		return nil, errors.New("PAC image shorter than its buffer table")
+	}
+	var out []pacBuf
+	for i := 0; i < n; i++ {
+		e := b[8+16*i:]
+		t, sz, off := binary.LittleEndian.Uint32(e[0:4]), uint64(binary.LittleEndian.Uint32(e[4:8])), binary.LittleEndian.Uint64(e[8:16])
+		if off > uint64(len(b)) || off+sz > uint64(len(b)) {
+			return nil, fmt.Errorf("PAC buffer %d outside the image", i)
+		}
+		out = append(out, pacBuf{typ: t, data: append([]byte{}, b[off:off+sz]...)})
+	}
+	return out, nil
+}
+
+func (p *pacFactory) load() {
+	b, err := hex.DecodeString(testdata.MarshaledPAC_AD_WIN2K_PAC)
+	if err != nil {
+		p.err = err
+		return
+	}
+	all, err := splitPAC(b)
+	if err != nil {
+		p.err = err
+		return
+	}
+	for _, x := range all {
+		if x.typ != pacBufServerSig && x.typ != pacBufKDCSig {
+			p.bufs = append(p.bufs, x)
+		}
+	}
+	if len(p.bufs) == 0 {
+		p.err = errors.New("sample PAC has no data buffers")
+	}
+}
+
+// pacSigTypeFor gives the signature type a KDC uses for a service key of the etype ([MS-PAC] 2.8.1: the AES types for AES
+// keys, HMAC_MD5 for every other key).
+func pacSigTypeFor(et int32) int32 {
+	switch et {
+	case 17:
+		return 15
+	case 18:
+		return 16
+	case 19:
+		return 19
+	case 20:
+		return 20
+	}
+	return pacHMACMD5
+}
+
+func pacChecksum(sigType int32, key, data []byte) ([]byte, error) {
+	et, err := crypto.GetChksumEtype(sigType)
+	if err != nil {
+		return nil, err
+	}
+	return et.GetChecksumHash(key, data, pacSigUsage)
+}
+
+type pacLayout struct {
+	image         []byte
+	srvAt, srvLen int // position and length of the server signature value
+	kdcAt, kdcLen int
+}
+
+// layoutPAC writes the table and the buffers (8-byte alignment, zero gaps), with both signature values zero.
+func layoutPAC(bufs []pacBuf, srvType, kdcType int32, srvLen, kdcLen int) pacLayout {
+	all := append([]pacBuf{}, bufs...)
+	sig := func(t int32, n int) []byte {
+		d := make([]byte, 4+n)
+		binary.LittleEndian.PutUint32(d, uint32(t))
+		return d
+	}
+	all = append(all, pacBuf{pacBufServerSig, sig(srvType, srvLen)}, pacBuf{pacBufKDCSig, sig(kdcType, kdcLen)})
+	hdr := 8 + 16*len(all)
+	off := hdr
+	offs := make([]int, len(all))
+	for i, x := range all {
+		off = (off + 7) / 8 * 8
+		offs[i] = off
+		off += len(x.data)
+	}
+	img := make([]byte, (off+7)/8*8)
+	binary.LittleEndian.PutUint32(img[0:], uint32(len(all)))
+	var l pacLayout
+	for i, x := range all {
+		e := img[8+16*i:]
+		binary.LittleEndian.PutUint32(e[0:], x.typ)
+		binary.LittleEndian.PutUint32(e[4:], uint32(len(x.data)))
+		binary.LittleEndian.PutUint64(e[8:], uint64(offs[i]))
+		copy(img[offs[i]:], x.data)
+		switch x.typ {
+		case pacBufServerSig:
+			l.srvAt, l.srvLen = offs[i]+4, srvLen
+		case pacBufKDCSig:
+			l.kdcAt, l.kdcLen = offs[i]+4, kdcLen
+		}
+	}
+	l.image = img
+	return l
+}
+
+// signedPAC lays the buffers out and signs them: the server signature with the service key over the image with both
+// signature values zero, the KDC signature over the server signature.
+func signedPAC(bufs []pacBuf, key types.EncryptionKey) (pacLayout, error) {
+	st := pacSigTypeFor(key.KeyType)
+	probe, err := pacChecksum(st, key.KeyValue, nil)
+	if err != nil {
+		return pacLayout{}, err
+	}
+	kprobe, err := pacChecksum(pacHMACMD5, pacKDCKey, nil)
+	if err != nil {
+		return pacLayout{}, err
+	}
+	l := layoutPAC(bufs, st, pacHMACMD5, len(probe), len(kprobe))
+	ssig, err := pacChecksum(st, key.KeyValue, l.image)
+	if err != nil {
+		return l, err
+	}
+	ksig, err := pacChecksum(pacHMACMD5, pacKDCKey, ssig)
+	if err != nil {
+		return l, err
+	}
+	copy(l.image[l.srvAt:l.srvAt+l.srvLen], ssig)
+	copy(l.image[l.kdcAt:l.kdcAt+l.kdcLen], ksig)
+	return l, nil
+}
+
+// wrapPAC puts a PACTYPE image into AD-IF-RELEVANT { AD-WIN2K-PAC }.
+func wrapPAC(image []byte) (types.AuthorizationData, error) {
+	inner, err := asn1.Marshal(types.AuthorizationData{{ADType: adtype.ADWin2KPAC, ADData: image}})
+	if err != nil {
+		return nil, err
+	}
+	return types.AuthorizationData{{ADType: adtype.ADIfRelevant, ADData: inner}}, nil
+}
+
+// forKey returns AD-IF-RELEVANT { AD-WIN2K-PAC } built from the repository's sample PAC (MarshaledPAC_AD_WIN2K_PAC), re-signed
+// for the service key.  variant:
+//
+//	valid         correct server signature
+//	badServerSig  one bit of the server signature value flipped
+//	noClientInfo  the mandatory PAC_CLIENT_INFO buffer removed, then signed correctly
+//	malformed     the (correctly signed) image cut in the middle of its buffers
 func (p *pacFactory) forKey(key types.EncryptionKey, variant string) (types.AuthorizationData, error) {
-	return nil, errors.New("PAC variants are not available yet")
+	p.once.Do(p.load)
+	if p.err != nil {
+		return nil, p.err
+	}
+	bufs := p.bufs
+	if variant == "noClientInfo" {
+		bufs = nil
+		for _, x := range p.bufs {
+			if x.typ != pacBufClientInfo {
+				bufs = append(bufs, x)
+			}
+		}
+		if len(bufs) == len(p.bufs) {
+			return nil, errors.New("sample PAC has no client info buffer")
+		}
+	}
+	l, err := signedPAC(bufs, key)
+	if err != nil {
+		return nil, fmt.Errorf("signing the PAC: %v", err)
+	}
+	img := l.image
+	switch variant {
+	case "valid", "noClientInfo":
+	case "badServerSig":
+		img[l.srvAt+l.srvLen/2] ^= 0x04
+	case "malformed":
+		img = img[:len(img)/2]
+	default:
+		return nil, fmt.Errorf("unknown PAC variant %q", variant)
+	}
+	return wrapPAC(img)
 }
